@@ -78,6 +78,15 @@ def gen_adaptive_case(rng, index, tier):
     L.add(gen.entry_nodes(rng, d + '/' + name, kind, 'c%dadaptive' % index))
     if rng.random() < 0.7:
         L.add(world.ensure_trash_dirs(tdir))
+    if rng.random() < 0.25 and len(name) < 100:
+        # the name and its 99 numbered variants are taken: the run is in the
+        # random-suffix phase (deterministic here: the RNG is seeded)
+        L.add(world.ensure_trash_dirs(tdir))
+        for j in range(100):
+            nmj = name if j == 0 else '%s_%d' % (name, j)
+            L.add(world.trash_nodes(
+                tdir, nmj, world.trashinfo_text('crowd/%d' % j, '2003-03-03T03:03:03'),
+                [{'p': '', 't': 'f', 'c': 'crowd %d' % j}]))
     case = L.desc()
     case['scen'] = 'adaptive-' + layout
     case['mode'] = 'adaptive'
@@ -122,13 +131,14 @@ def run_adaptive(case):
         'scen:' + case['scen'], 'mode:adaptive', 'actors:1']}
     obs = out['obs']
     a = case['actors'][0]
+    base_have = set(nd['p'] for nd in case['nodes'])
     planted = {}       # every name a run touched
     unreserved = {}    # ... except those the run reserved by creating info/<name>.trashinfo itself
     for rnd in range(case['rounds'] + 1):
         if rnd == 0:
             variants = [('none', 'all')]
         else:
-            variants = [('file', 'all'), ('dir', 'all')]
+            variants = [('file', 'all'), ('dir', 'all'), ('orphan', 'all')]
             if any(unreserved.values()):
                 variants = [('file', 'unreserved'), ('dir', 'unreserved')] + variants
         touched_now = []
@@ -141,13 +151,19 @@ def run_adaptive(case):
                 for j, nm in enumerate(sorted(src[td])):
                     if len((nm + '.trashinfo').encode('utf-8', 'surrogateescape')) > 255:
                         continue
+                    if (td + '/files/' + nm) in base_have or \
+                            (td + '/info/' + nm + '.trashinfo') in base_have:
+                        continue          # taken in the base world already
                     pay = [{'p': '', 't': 'f', 'c': 'older payload %d' % j}] \
-                        if variant == 'file' else \
+                        if variant in ('file', 'orphan') else \
                         [{'p': '', 't': 'd', 'm': 0o755},
                          {'p': 'inner', 't': 'f', 'c': 'inner of older dir %d' % j}]
+                    # 'orphan': a payload whose .trashinfo is gone - still not
+                    # a free name
                     nodes += world.trash_nodes(
-                        td, nm, world.trashinfo_text('older/%d' % j,
-                                                     '2001-01-01T00:00:00'), pay)
+                        td, nm, None if variant == 'orphan' else
+                        world.trashinfo_text('older/%d' % j, '2001-01-01T00:00:00'),
+                        pay)
             desc = dict(case)
             desc['nodes'] = nodes
             with world.World(desc) as w:
